@@ -114,6 +114,9 @@ RXNS = {
     "xc_rel": (2, ["A", "B"], [1, 1], dict(energy="E2", unit="U2", noise_rel_factor="nr2", weight="w2")),
     "xc_orb": (2, [("A", "h"), "B"], [1, 1], dict(energy="E2", unit="U2")),
     "x_weight": (0, ["B"], [1], dict(weight="w3", noise_factor="nf3")),
+    # the same system listed twice (homodimer dissociation written term by term) - in both modes, plain and orbital entries
+    "x_dup": (0, ["A", "B", "B", ("A", "h"), ("A", "h")], [1, -1, -1, 2, 1], {}),
+    "xc_dup": (2, ["B", "A", "A"], [1, -1, -1], dict(energy="E1", unit="U0")),
 }
 
 
@@ -323,6 +326,7 @@ def tasks(tier):
     out.append(Task("labels/x/x_plain+x_orb", h_labels, dict(kernels_spec=("x",), names=("x_plain", "x_orb")), mods="train"))
     out.append(Task("labels/x+c/all_modes", h_labels, dict(kernels_spec=("x", "c"), names=("x_plain", "xc_plain", "xc_default_unit", "x_weight")), mods="train"))
     out.append(Task("labels/x+c/rel_noise", h_labels, dict(kernels_spec=("x", "c"), names=("xc_rel", "x_orb")), mods="train"))
+    out.append(Task("labels/x+c/repeated_systems", h_labels, dict(kernels_spec=("x", "c"), names=("x_dup", "xc_dup")), mods="train"))
     out.append(Task("labels/xc_orbital_entry", h_xc_orbital_entry, {}, mods="train"))
     out.append(Task("fit/x/2rxn", h_fit, dict(kernels_spec=("x",), names=("x_plain", "x_orb")), mods="train", timeout_ms=60000))
     out.append(Task("fit/x+c/2rxn/nctrl1", h_fit, dict(kernels_spec=("x", "c"), names=("x_plain", "xc_plain"), nctrl=1), mods="train", timeout_ms=60000))
